@@ -12,6 +12,7 @@ pub mod opclass_wire;
 pub mod scen_dgram;
 pub mod scen_gate;
 pub mod scen_multi;
+pub mod scen_progress;
 pub mod scen_zrtt2;
 pub mod ledger;
 pub mod scen_conn;
